@@ -734,6 +734,10 @@ package ring
 //@   trusted opaque at the abstract level (a rounded division by the last modulus is not a ring operation; coefficient-level contract: property C02): writes the output and the buffer
 //@   assigns buff, p1
 
+//@ afunc Ring.DivRoundByLastModulusManyNTT
+//@   trusted opaque at the abstract level (rounded divisions by the last moduli are not ring operations; coefficient-level contract: property C02): writes the output and the buffer
+//@   assigns buff, p1
+
 //@ afunc Ring.MulRNSScalarMontgomery
 //@   trusted the Montgomery product with an RNS scalar; the ring value and the Montgomery exponent of the scalar are NAMED by uninterpreted functions of its contents (uf_rnsval, uf_rnsmexp)
 //@   assigns p2
